@@ -19,6 +19,27 @@ def storeVerdict (a : Access) : Bool :=
   | none => true
   | some e => e == "system.accessDenied"
 
+/-- What happens to the verdict a subscription remembers (`Subscription.access`). -/
+inductive VEv where
+  | answer (a : Access)   -- an access answer arrived (`loadAccess` callback)
+  | trigger               -- `handleReaccess`: token event on a connection that had a token, reaccess
+                          -- event, system reset with a matching access pattern
+  deriving Repr
+
+def verdictStep (cached : Option Access) : VEv → Option Access
+  | .answer a => if storeVerdict a then some a else cached
+  | .trigger => none
+
+/-- The remembered verdict after a history of answers and triggers, most recent first. -/
+def verdictAfter : List VEv → Option Access
+  | [] => none
+  | e :: older => verdictStep (verdictAfter older) e
+
+/-- `wsConn.TokenReset`: a token reset addresses a connection iff the connection has a token id
+    and the reset names it. A connection without token id is addressed by no reset, whatever the
+    list contains. -/
+def resetAddresses (tid : String) (tids : List String) : Bool := tid != "" && tids.contains tid
+
 /-- Outcome of an unsubscribe request (`rpc.HandleRequest` + `UnsubscribeByRID`). -/
 inductive UnsubVerdict | invalidParams | noSubscription | ok
   deriving DecidableEq, Repr
@@ -42,6 +63,12 @@ def removeCountPure (count n : Int) (evictPending : Bool) : Int × Bool × Bool 
 /-- `addCount`: leaving count 0 cancels the pending eviction. -/
 def addCountPure (count : Int) (evictPending : Bool) : Int × Bool :=
   (count + 1, if count == 0 then false else evictPending)
+
+/-- `Cache.mqUnsubscribe` for an entry taken from the eviction queue: `none` = the entry stays (it is
+    not queued, or got a user again); `some u` = it is removed from the cache, and `u` says whether
+    its event subscription at the messaging system is released. -/
+def evictDecision (count : Int) (evictPending mqSub : Bool) : Option Bool :=
+  if evictPending then (if count > 0 then none else some mqSub) else none
 
 /-- The mailbox discipline of a cache entry (`processQueue`): which item runs next.
     While a lock is active only unlock items run; normal items wait. -/
